@@ -2,8 +2,15 @@ import FormulaicVerif.Engines.Json
 import FormulaicVerif.Model.Scale
 import FormulaicVerif.Model.Poly
 import FormulaicVerif.Model.Elementwise
-/-! Engine for C13: runs `Model.Scale.run/center/standardize`, `Model.Poly.run` and
-`Model.Elementwise.lookup/exactAt` at the carrier `Rat`.  Rationals travel as "p/q" strings. -/
+import FormulaicVerif.Model.ScaleEntry
+import FormulaicVerif.Model.PolyEntry
+import FormulaicVerif.Model.PatsyCompat
+import FormulaicVerif.Model.Preloaded
+import FormulaicVerif.Gen.Names
+/-! Engine for C13: runs `Model.ScaleEntry.call` (argument binding, sparse dispatch, then
+`Model.Scale.run`), `Model.PolyEntry.call` (binding, then `Model.Poly.run`), `Model.Elementwise.lookup/exactAt`,
+`Model.Preloaded` (contract of every preloaded name against the live table) and
+`Model.PatsyCompat.Q/Treatment/identity` at the carrier `Rat`.  Rationals travel as "p/q" strings. -/
 namespace FormulaicVerif.Engines.C13
 open Lean FormulaicVerif.Engines
 open FormulaicVerif.Model
@@ -25,12 +32,6 @@ def optRatJ : Option Rat → Json
 
 /-! ### scale / center / standardize -/
 
-def argOf (j : Json) (dflt : Bool) : Scale.Arg Rat :=
-  match j with
-  | .bool b => .flag b
-  | .str s => .value (ratOfString s)
-  | _ => .flag dflt
-
 /-- state JSON: key absent = not in `_state`; `null` = Python `None` -/
 def scaleStateOf (j : Json) : Scale.State Rat :=
   let key (k : String) : Option (Option Rat) :=
@@ -45,36 +46,58 @@ def scaleStateJ (s : Scale.State Rat) : Json :=
     (match s.center with | none => [] | some c => [("center", optRatJ c)]) ++
     (match s.scale with | none => [] | some c => [("scale", optRatJ c)])
 
-def scaleCall (st : Scale.State Rat) (c : Json) : Except Scale.NumErr (List Rat × Scale.State Rat) :=
-  let data := (jarr c "data").map ratOf
+def scaleArgOf : Json → Scale.Arg Rat
+  | .bool b => .flag b
+  | .str s => .value (ratOfString s)
+  | _ => .flag false
+
+def kwOf {A : Type} (f : Json → A) (j : Json) : List (String × A) :=
+  (asArr j).filterMap fun p =>
+    match p with
+    | .arr #[.str k, v] => some (k, f v)
+    | _ => none
+
+def fnOf : String → Option ScaleEntry.Fn
+  | "scale" => some .scale
+  | "center" => some .center
+  | "standardize" => some .standardize
+  | _ => none
+
+def dataOf (c : Json) : ScaleEntry.Data Rat :=
+  if jstr c "container" == "sparse" then .sparse ((jarr c "cols").map fun col => (asArr col).map ratOf)
+  else .dense ((jarr c "data").map ratOf)
+
+def scaleErrStr : ScaleEntry.Err → String
+  | .valueError => "ValueError"
+  | .bind .typeError => "TypeError"
+  | .bind .unmodelled => "unmodelled"
+  | .num _ => "nonfinite"
+
+/-- one call with the given stand-in for `numpy.sqrt` -/
+def scaleCallWith (sqrt : Rat → Rat) (st : Scale.State Rat) (c : Json) :
+    Except ScaleEntry.Err (List Rat × Scale.State Rat) :=
+  match fnOf (jstr c "fn") with
+  | none => .error (.bind .unmodelled)
+  | some fn =>
+    ScaleEntry.call sqrt fn (dataOf c) ((jarr c "pos").map scaleArgOf) (kwOf scaleArgOf (jval c "kw")) st
+
+def scaleCall (st : Scale.State Rat) (c : Json) : Except ScaleEntry.Err (List Rat × Scale.State Rat) :=
   let s : Rat := (optRatOf (jval c "sqrt")).getD 0
-  let sqrt : Rat → Rat := if jbool c "sqrt_id" then id else fun _ => s
-  match jstr c "fn" with
-  | "center" => Scale.center sqrt data st
-  | "standardize" =>
-    Scale.standardize sqrt data (argOf (jval c "center") true) (argOf (jval c "scale") true)
-      ((optRatOf (jval c "ddof")).getD 0) st
-  | _ =>
-    Scale.run sqrt data (argOf (jval c "center") true) (argOf (jval c "scale") true)
-      ((optRatOf (jval c "ddof")).getD 1) st
+  scaleCallWith (fun _ => s) st c
 
 def scaleCalls : Scale.State Rat → List Json → List Json
   | _, [] => []
   | st, c :: cs =>
     match scaleCall st c with
-    | .error _ => [jerr "nonfinite"]
+    | .error (.num e) => [jerr (scaleErrStr (.num e))]   -- numpy carries on with nan/inf: the history ends here
+    | .error e => jerr (scaleErrStr e) :: scaleCalls st cs   -- an exception was raised: `_state` is as it was
     | .ok (out, st') =>
-      -- the value `numpy.sqrt` was applied to in this call (when it was): a pass with `sqrt = id`
-      let fitsScale := st.scale.isNone && (match jstr c "fn", argOf (jval c "scale") true with
-        | "center", _ => false
-        | _, .flag true => true
-        | _, _ => false)
+      -- the value `numpy.sqrt` was applied to in this call, when it was: two passes with different
+      -- stand-ins record different scales exactly when the root was taken; the pass with `id` records its argument
       let sqrtArg : Json :=
-        if fitsScale then
-          match scaleCall st (c.setObjVal! "sqrt" Json.null |>.setObjVal! "sqrt_id" (Json.bool true)) with
-          | .ok (_, s) => optRatJ (s.scale.bind id)
-          | .error _ => Json.null
-        else Json.null
+        match scaleCallWith id st c, scaleCallWith (fun v => v + 1) st c with
+        | .ok (_, s1), .ok (_, s2) => if s1.scale == s2.scale then Json.null else optRatJ (s1.scale.bind id)
+        | _, _ => Json.null
       Json.mkObj [("out", jlist (out.map ratJ)), ("state", scaleStateJ st'), ("sqrt_arg", sqrtArg)]
         :: scaleCalls st' cs
 
@@ -92,32 +115,40 @@ def polyStateJ (s : Poly.State Rat) : Json :=
     (match s.alpha with | none => [] | some a => [("alpha", jlist (a.map ratJ))]) ++
     (match s.norms2 with | none => [] | some a => [("norms2", jlist (a.map ratJ))])
 
-def polyErrStr : Poly.PolyErr → String
-  | .nonFinite => "nonfinite" | .keyError => "KeyError" | .typeError => "TypeError" | .valueError => "ValueError"
+def polyErrStr : PolyEntry.Err → String
+  | .bind .typeError => "TypeError"
+  | .bind .unmodelled => "unmodelled"
+  | .poly .nonFinite => "nonfinite" | .poly .keyError => "KeyError" | .poly .typeError => "TypeError"
+  | .poly .valueError => "ValueError"
+
+def polyArgOf : Json → PolyEntry.PArg
+  | .bool b => .flag b
+  | j => .int (asInt j)
+
+def polyCallWith (sqrt : Rat → Rat) (st : Poly.State Rat) (c : Json) :
+    Except PolyEntry.Err (PolyEntry.Result Rat × Poly.State Rat) :=
+  PolyEntry.call sqrt ((jarr c "x").map optRatOf) ((jarr c "pos").map polyArgOf) (kwOf polyArgOf (jval c "kw")) st
 
 /-- one call; `sqrts[k]` is the real `numpy.sqrt(norms2[k])`.  First pass (any `sqrt`) yields the
 norms the real code took roots of, the second pass uses the table norm ↦ supplied root. -/
-def polyCall (st : Poly.State Rat) (c : Json) :
-    Except Poly.PolyErr (List (List (Option Rat)) × Poly.State Rat) :=
-  let xs := (jarr c "x").map optRatOf
-  let degree := jnat c "degree"
-  let raw := jbool c "raw"
-  match Poly.run (fun _ => 1) xs degree raw st with
+def polyCall (st : Poly.State Rat) (c : Json) : Except PolyEntry.Err (PolyEntry.Result Rat × Poly.State Rat) :=
+  match polyCallWith (fun _ => 1) st c with
   | .error e => .error e
   | .ok (_, st1) =>
     let ns := st1.norms2.getD []
     let tbl := ns.zip ((jarr c "sqrts").map ratOf)
     -- the contract `sqrt v * sqrt v = v` forces `sqrt 0 = 0`; a float root of rounding dust is not used there
     let sqrt : Rat → Rat := fun v => if v = 0 then 0 else (tbl.lookup v).getD 0
-    Poly.run sqrt xs degree raw st
+    polyCallWith sqrt st c
 
 def polyCalls : Poly.State Rat → List Json → List Json
   | _, [] => []
   | st, c :: cs =>
     match polyCall st c with
     | .error e => [jerr (polyErrStr e)]
-    | .ok (out, st') =>
-      Json.mkObj [("cols", jlist (out.map (fun col => jlist (col.map optRatJ)))), ("state", polyStateJ st')]
+    | .ok (r, st') =>
+      Json.mkObj [("cols", jlist (r.cols.map (fun col => jlist (col.map optRatJ)))), ("state", polyStateJ st'),
+          ("names", match r.names with | none => Json.null | some ns => jstrs ns)]
         :: polyCalls st' cs
 
 /-! ### elementwise -/
@@ -134,12 +165,67 @@ def elem (j : Json) : Json :=
     | none => Json.mkObj base
     | some (p, v) => Json.mkObj (base ++ [("point", ratJ p), ("value", ratJ v)])
 
+/-! ### the preloaded namespace, `Q`, `Treatment`, `I` -/
+
+def contractStr : Preloaded.Contract → String
+  | .is k t => "is " ++ k ++ " " ++ t
+  | .stateful => "stateful"
+  | .callable => "callable"
+
+/-- every contracted name with its contract, whether the live row meets it, and (elementwise names)
+the real function the live object computes -/
+def names : Json :=
+  Json.mkObj [
+    ("names", jstrs (Elementwise.table.map (·.1))),
+    ("contracts", jlist (Preloaded.contracts.map fun (n, c) =>
+      Json.mkObj [("name", Json.str n), ("contract", Json.str (contractStr c)),
+        ("met", Json.bool (match Preloaded.live n with | some row => Preloaded.meets c row | none => false)),
+        ("computes", match Preloaded.liveRealFn n with | some f => Json.str (fnStr f) | none => Json.null)]))]
+
+def dictOf (j : Json) : List (String × String) := kwOf asStr j
+
+/-- `Q(variable)` in one of the environments the harness builds; values are opaque tags -/
+def qOp (j : Json) : Json :=
+  let data := dictOf (jval j "data")
+  let ctx := dictOf (jval j "context")
+  -- the `transforms` layer: the keys of the live `TRANSFORMS` (regenerated table), not sent by the harness
+  let tr := Gen.transformNames.map fun k => (k, "transforms:" ++ k)
+  let env : Option (LMap.Layer String) :=
+    match jstr j "env" with
+    | "materializer" => some (PatsyCompat.materializerEnv data ctx tr)
+    | "plain" => some (.lm none [] [.dict (data ++ ctx ++ tr)])       -- stateful_eval(expr, {plain dict})
+    | "named" => some (.lm none [] [.lm (some (jstr j "layer")) [] [.dict data], .dict (ctx ++ tr)])
+    | _ => none
+  match PatsyCompat.Q (jstr j "variable") env with
+  | .ok v => Json.mkObj [("value", Json.str v)]
+  | .error .attributeError => jerr "AttributeError"
+  | .error .keyError => jerr "KeyError"
+
+def labelOf : Json → Option Contrasts.Label
+  | .str s => some (.str s)
+  | .num n => some (.int n.mantissa)
+  | _ => none
+
+def labelJ : Contrasts.Label → Json
+  | .str s => Json.str s
+  | .int i => Json.num (Lean.JsonNumber.fromInt i)
+
+/-- `C(a, Treatment(reference))`: the coded column labels for the given levels -/
+def treatmentOp (j : Json) : Json :=
+  let levels := (jarr j "levels").filterMap labelOf
+  match Contrasts.codingColumnNames (PatsyCompat.Treatment (labelOf (jval j "reference"))) levels (jbool j "reduced") with
+  | .ok ns => Json.mkObj [("names", jlist (ns.map labelJ))]
+  | .error _ => jerr "ValueError"
+
 def handle (j : Json) : Json :=
   match jstr j "op" with
   | "scale" => Json.mkObj [("calls", jlist (scaleCalls (scaleStateOf (jval j "state")) (jarr j "calls")))]
   | "poly" => Json.mkObj [("calls", jlist (polyCalls (polyStateOf (jval j "state")) (jarr j "calls")))]
   | "elem" => elem j
-  | "names" => Json.mkObj [("names", jstrs (Elementwise.table.map (·.1)))]
+  | "names" => names
+  | "Q" => qOp j
+  | "treatment" => treatmentOp j
+  | "identity" => Json.mkObj [("value", PatsyCompat.identity (jval j "value"))]
   | o => jerr ("unknown op " ++ o)
 
 end FormulaicVerif.Engines.C13
